@@ -48,6 +48,7 @@ type frame struct {
 	panic            any
 	phitemps         []Value
 	callpos          token.Pos
+	isInit           bool
 }
 
 // Machine is one interpreter instance (one per worker).
@@ -158,8 +159,42 @@ func (m *Machine) ensureInit(pkg *ssa.Package) {
 		defer func() { m.logging = true }()
 	}
 	savedInstr := m.instrs
+	m.instrs = -1 << 50
 	m.callSSA(nil, token.NoPos, init, nil, nil)
 	m.instrs = savedInstr
+}
+
+// isPkgInit reports whether fn is a synthetic package initialiser.
+func isPkgInit(fn *ssa.Function) bool {
+	return fn.Name() == "init" && fn.Synthetic != "" && fn.Signature.Recv() == nil && fn.Parent() == nil
+}
+
+// visitInit executes one instruction of a package initialiser tolerantly: an initialiser
+// expression that is not encodable (reflection, regexp, os, ...) leaves a poison value
+// (Bad) in the variable; only a later *use* of that variable is unsupported.
+func (m *Machine) visitInit(fr *frame, instr ssa.Instruction) (k continuation) {
+	if _, isGo := instr.(*ssa.Go); isGo {
+		return kNext // background goroutines started by initialisers are not modelled
+	}
+	defer func() {
+		if r := recover(); r != nil {
+			if pa, ok := r.(pathAbort); ok && pa.kind != "unsupported" && pa.kind != "unwind" && pa.kind != "engine" {
+				panic(r)
+			}
+			v, isVal := instr.(ssa.Value)
+			if !isVal {
+				switch instr.(type) {
+				case *ssa.Store, *ssa.MapUpdate, *ssa.Send, *ssa.RunDefers, *ssa.Defer:
+					k = kNext
+					return
+				}
+				panic(pathAbort{"unsupported", fmt.Sprintf("package initialiser %s: cannot continue after %v", fr.fn.Pkg.Pkg.Path(), r)})
+			}
+			fr.env[v] = Bad{}
+			k = kNext
+		}
+	}()
+	return m.visitInstr(fr, instr)
 }
 
 func (m *Machine) constValue(c *ssa.Const) Value {
@@ -286,6 +321,13 @@ func (m *Machine) prepareCall(fr *frame, call *ssa.CallCommon) (fn Value, args [
 		if recv.T == nil {
 			m.runtimePanic("invalid memory address or nil pointer dereference")
 		}
+		if recv.T == rtypeType {
+			args = append(args, recv.V)
+			for _, arg := range call.Args {
+				args = append(args, m.get(fr, arg))
+			}
+			return m.rtypeMethod(call.Method.Name()), args
+		}
 		f := m.lookupMethod(recv.T, call.Method)
 		if f == nil {
 			panic(fmt.Sprintf("method set for dynamic type %v does not contain %s", recv.T, call.Method))
@@ -342,8 +384,8 @@ func (m *Machine) callSSA(caller *frame, pos token.Pos, fn *ssa.Function, args [
 			return in(m, fr, args)
 		}
 		if fn.Blocks == nil {
-			if fn.Pkg != nil {
-				// maybe a function of a source package not yet built
+			if fn.Name() == "init" && fn.Signature.Recv() == nil {
+				return nil // initialiser of a package loaded from export data
 			}
 			m.unsupported("no code for function " + name)
 		}
@@ -360,7 +402,7 @@ func (m *Machine) callSSA(caller *frame, pos token.Pos, fn *ssa.Function, args [
 	} else {
 		g = m.cur
 	}
-	fr := &frame{m: m, g: g, caller: caller, fn: fn, callpos: pos}
+	fr := &frame{m: m, g: g, caller: caller, fn: fn, callpos: pos, isInit: isPkgInit(fn)}
 	fr.env = make(map[ssa.Value]Value, len(fn.Params)+8)
 	fr.block = fn.Blocks[0]
 	fr.locals = make([]Value, len(fn.Locals))
@@ -421,7 +463,13 @@ func (m *Machine) runFrame(fr *frame) {
 			if m.instrs > m.cfg.MaxInstr {
 				panic(pathAbort{"unwind", fmt.Sprintf("instruction budget %d exhausted in %s", m.cfg.MaxInstr, fr.fn)})
 			}
-			if m.visitInstr(fr, instr) == kReturn {
+			var k continuation
+			if fr.isInit {
+				k = m.visitInit(fr, instr)
+			} else {
+				k = m.visitInstr(fr, instr)
+			}
+			if k == kReturn {
 				return
 			}
 		}
